@@ -1034,8 +1034,14 @@ class Job:
         state["_lock"] = RLock()
         self.__dict__.update(state)
         # We append to a list of jobs rather than replacing to support
-        # transparent id updates between shallow copies of a job.
-        self.statepoint._jobs.append(self)
+        # transparent id updates between shallow copies of a job. If this job
+        # is reached through the job list of a state point that is itself
+        # still being unpickled (a shallow copy of the pickled job exists),
+        # that state point has no attributes yet; its job list is restored
+        # afterwards and already contains this job.
+        jobs = vars(self._statepoint).get("_jobs")
+        if jobs is not None:
+            jobs.append(self)
 
     def __deepcopy__(self, memo):
         cls = self.__class__
